@@ -477,6 +477,9 @@ func buildNumber[T number](e *Env, n *Node, s *z.NumberSchema[T]) *z.NumberSchem
 	}
 	if n.Def != nil {
 		s.Default(convTo[T](*n.Def))
+		if !n.Req && n.ID%2 == 1 {
+			s.Optional() // spelled out after the Default (what a node is without Required; the Default stays)
+		}
 	}
 	if n.Catch != nil {
 		s.Catch(convTo[T](*n.Catch))
@@ -595,6 +598,9 @@ func build(n *Node, e *Env) (z.ZogSchema, reflect.Type) {
 		}
 		if n.Def != nil {
 			s.Default(n.Def.S)
+			if !n.Req && n.ID%2 == 1 {
+				s.Optional() // spelled out after the Default (what a node is without Required; the Default stays)
+			}
 		}
 		if n.Catch != nil {
 			s.Catch(n.Catch.S)
@@ -671,6 +677,9 @@ func build(n *Node, e *Env) (z.ZogSchema, reflect.Type) {
 		}
 		if n.Def != nil {
 			s.Default(n.Def.S == "true")
+			if !n.Req && n.ID%2 == 1 {
+				s.Optional() // spelled out after the Default (what a node is without Required; the Default stays)
+			}
 		}
 		if n.Catch != nil {
 			s.Catch(n.Catch.S == "true")
@@ -704,6 +713,9 @@ func build(n *Node, e *Env) (z.ZogSchema, reflect.Type) {
 		}
 		if n.Def != nil {
 			s.Default(mustTime(n.Def.S))
+			if !n.Req && n.ID%2 == 1 {
+				s.Optional() // spelled out after the Default (what a node is without Required; the Default stays)
+			}
 		}
 		if n.Catch != nil {
 			s.Catch(mustTime(n.Catch.S))
@@ -740,6 +752,9 @@ func build(n *Node, e *Env) (z.ZogSchema, reflect.Type) {
 		}
 		if n.Def != nil {
 			s.Default(own(e, TypedSlice(st, *n.Def)))
+			if !n.Req && n.ID%2 == 1 {
+				s.Optional() // spelled out after the Default (what a node is without Required; the Default stays)
+			}
 		}
 		for i, ts := range n.Tests {
 			o := e.opts(ts.Opts)
@@ -1250,6 +1265,8 @@ func (e *Env) execOpts(x Exec) []z.ExecOption {
 	}
 	if x.Formatter == TemplateFormatter {
 		out = append(out, z.WithIssueFormatter(conf.NewDefaultFormatter(templateLangMap())))
+	} else if x.Formatter == ValueTemplateFormatter {
+		out = append(out, z.WithIssueFormatter(conf.NewDefaultFormatter(valueTemplateLangMap())))
 	} else if x.Formatter != "" {
 		marker := x.Formatter
 		out = append(out, z.WithIssueFormatter(func(is *z.ZogIssue, ctx z.Ctx) { is.SetMessage(marker) }))
@@ -1301,6 +1318,31 @@ func addrFree(v any) string {
 // TemplateFormatter as Exec.Formatter installs the library's own default formatter over a message catalogue whose
 // templates use several placeholders each (the test's parameter and the keys of z.Params given by the generators).
 const TemplateFormatter = "@templates"
+
+// ValueTemplateFormatter as Exec.Formatter: the default formatter over a catalogue whose templates echo the offending
+// value ({{value}}: the documented placeholder) next to the test's parameters. Messages may contain addresses.
+const ValueTemplateFormatter = "@value-templates"
+
+var valueTmplMap zconst.LangMap
+
+func valueTemplateLangMap() zconst.LangMap {
+	if valueTmplMap != nil {
+		return valueTmplMap
+	}
+	m := zconst.LangMap{}
+	for typ, msgs := range conf.DefaultIssueMessageMap {
+		mm := map[zconst.ZogIssueCode]string{}
+		for code := range msgs {
+			mm[code] = "'{{value}}' is not acceptable: " + code + "={{" + code + "}} k1={{k1}}"
+		}
+		for _, code := range []string{"my_code", "custom", "x", "cc", "custom_fail", "ord", "rec"} {
+			mm[code] = "'{{value}}' is not acceptable ({{k1}}/{{min}})"
+		}
+		m[typ] = mm
+	}
+	valueTmplMap = m
+	return m
+}
 
 var tmplMap zconst.LangMap
 
